@@ -1,5 +1,5 @@
 """C11 — emitted l-value paths address exactly the value the expression reads (DESIGN.md §9 C11)."""
-import re, json
+import re, json, copy
 from . import core, exprgen as eg, render, tmplgen as tg
 
 THEOREMS = [
@@ -300,6 +300,51 @@ def collect_inputs(tree, out):
     return out
 
 
+def template_data_getput(chk):
+    """model: bindings inside a <template name> body: the emitted path is relative to the template's own data object, the runtime applies it to
+    the host's data. Get-put on the real system: write a sentinel at the emitted path of the host data, render again, read what the binding shows."""
+    SENT = "§sentinel§"
+    D = {"a": "A", "b": "B", "o": {"p": "P", "q": {"k": "K"}}, "l": [{"p": 1}, {"p": 2}], "c": True}
+    cases = []
+    for data in ("a", "a, b", "...o", "a: a", "a: b", "a: o.p", "a: !a", "p: a", "o: o.q", "a: l[0].p", "a: c ? a : b", "...o.q, a"):
+        for e in ("a", "p", "o.p", "k", "o.k"):
+            cases.append(('<template name="t"><input model:value="{{ %s }}"/></template><template is="t" data="{{ %s }}"/>' % (e, data), e, data))
+    groups = render.compile_templates([[["p", c[0]]] for c in cases])
+    first = core.run_node([{"op": "render", "gen_groups": g["gen_groups"], "path": "p", "steps": [{"create": D}]} for g in groups])
+
+    def the_input(o):
+        t = (o.get("snapshots") or [{}])[0].get("tree") or []
+        return collect_inputs(t, [])[0] if collect_inputs(t, []) else None
+
+    reqs, meta = [], []
+    for (src, e, data), g, o in zip(cases, groups, first):
+        n = the_input(o)
+        p = (n or {}).get("modelPaths", {}).get("value") if n else None
+        chk.evaluations += 1
+        if not isinstance(p, list):
+            continue
+        D2 = copy.deepcopy(D)
+        cur = D2
+        try:
+            for k in p[:-1]:
+                cur = cur[k]
+            cur[p[-1]] = SENT
+        except (KeyError, IndexError, TypeError):
+            chk.violation("input", f"model:value inside <template name>: the emitted path {p} does not exist in the data (template data {data!r})",
+                          template=src, classification="template-data-path")
+            continue
+        reqs.append({"op": "render", "gen_groups": g["gen_groups"], "path": "p", "steps": [{"create": D2}]})
+        meta.append((src, e, data, p))
+    outs = core.run_node(reqs) if reqs else []
+    for (src, e, data, p), o in zip(meta, outs):
+        n = the_input(o)
+        got = (n or {}).get("attrs", {}).get("value") if n else None
+        if got != SENT:
+            chk.violation("input", f"model:value=\"{{{{ {e} }}}}\" inside <template name>, instantiated with data=\"{{{{ {data} }}}}\": after writing a sentinel at the "
+                          f"emitted path {p} of the host's data the binding shows {json.dumps(got)}", template=src, path=p, classification="template-data-path")
+    chk.bump("oracle:template-data-getput", len(meta))
+
+
 def run(chk):
     quick = chk.tier != "thorough"
     chk.rule = ("(1) random access-chain expressions (members, indexes, nested conditionals, non-assignable operands) x scope configurations (invalid, "
@@ -316,7 +361,8 @@ def run(chk):
                        "reads_value: the model path looked up in the data is the expression's value. PARTIAL: the environment (values of hoisted "
                        "temporaries, item path = list path ++ [index] as threaded by F in proc_gen_wrapper.ts and ElementKind::For) is assumed in the "
                        "theorems and established by the oracle"]
-    chk.model_tie([("GE.Thm.C11", THEOREMS)], regen=False)
+    chk.model_tie([("GE.Thm.C11", THEOREMS), ("GE.Thm.C11Tag", ["GE.TagSem.model_paths_sound", "GE.TagSem.mpaths_sound", "GE.TagSem.loop_inv",
+                                                                  "GE.TagSem.sub_binding_unsound"])], regen=False)
     rng = chk.rng.fork("c11")
     # ---- (1) model vs implementation ------------------------------------------------------------
     cases = []
@@ -454,6 +500,11 @@ def run(chk):
     chk.bump("oracle:update-steps", len(umeta))
     chk.bump("oracle:templates", len(tpls))
     chk.bump("oracle:path-mismatches", nbad)
+    template_data_getput(chk)
+    # the tag-level model (mpaths_sound is about it) vs the real compiler + runtime: the path of every model: binding after creation and after
+    # every update, in document order
+    from . import tagsem
+    tagsem.stream(chk, chk.rng.fork("tagsem11"), 250 if quick else 5000, paths=True)
 
 
 def replay(chk, path):
